@@ -28,6 +28,7 @@ pub fn gen_c20_e4(rng: &mut Rng, _tier: Tier) -> J {
         16 => sc.steps = Some(0),
         17 => sc.inner_steps = Some(0),
         18 => sc.group = rng.pick(&["p3", "P1", "pg", ""]).to_string(),
+        19 if rng.chance(0.5) => sc.fault = "stale-output".into(),
         _ => sc.fault = "start-config-missing".into(),
     }
     sc.to_json().set("mode", J::str("cli"))
@@ -43,6 +44,7 @@ pub fn exec_c20_e4(j: &J) -> Result<RunOut, String> {
     out.nontrivial = true;
     let disk = DISK_FAULTS.contains(&sc.fault.as_str());
     out.count(&format!("fault.F-disk/{}", sc.fault), disk as u64);
+    out.count("fault.F-stale(output files existed before the run)", (sc.fault == "stale-output") as u64);
     out.count("fault.F-args", (!sc.valid_args() || sc.steps == Some(0) || sc.inner_steps == Some(0)) as u64);
     out.count("probe.cli_exit_zero", (r.code == Some(0)) as u64);
     out.count("probe.cli_exit_nonzero", (r.code != Some(0)) as u64);
